@@ -585,7 +585,8 @@ class HedTag:
 
         for unit_class_entry in tag_unit_classes.values():
             possible_match = unit_class_entry.get_derivative_unit_entry(units)
-            if possible_match and not possible_match.has_attribute(HedKey.UnitPrefix):
+            # The value is a single word: extra words between it and the unit belong to neither.
+            if possible_match and not possible_match.has_attribute(HedKey.UnitPrefix) and " " not in value:
                 return value, units, possible_match
 
             # Repeat the above, but as a prefix
